@@ -166,3 +166,10 @@ PROPS.update({
         "thorough": {"procs": 8, "checks": 6000, "timeout_s": 3400, "gomaxprocs": 4, "env": {"VERIF_C19_ROUNDS": 10}},
     },
 })
+
+# thorough tier: coverage-guided native fuzz campaigns (target, seconds)
+PROPS["C11"]["fuzz"] = [("FuzzC11Call", 120)]
+PROPS["C12"]["fuzz"] = [("FuzzC12String", 60), ("FuzzC12TransferParser", 60)]
+PROPS["C14"]["fuzz"] = [("FuzzC14Decode", 90)]
+for _p in ("C11", "C12", "C14"):
+    PROPS[_p]["technique"] += "; thorough tier adds coverage-guided native go fuzzing of byte-level targets with the oracle inside the target"
